@@ -798,6 +798,22 @@ def h_extend(I, st, fr, e, c, a):
     return [(st, UNIT, None)]
 
 
+def h_pop(I, st, fr, e, c, a):
+    """v.pop(): None on the empty vector, else the last element (removed)."""
+    place, cur = place_of(I, st, a[0])
+    if not isinstance(cur, VSeq):
+        raise NotImplementedError("pop on " + type(cur).__name__)
+    n = t_len(cur.t)
+    out = []
+    for s in I.assume(st.copy(), ("cmp", "eq", n)):
+        out.append((s, NONE, None))
+    for s in I.assume(st.copy(), ("cmp", "ge", n - 1)):
+        last = seq_elem(I, s, cur, n - 1)
+        I.write_place(s, place, VSeq(mk_slice(s, cur.t, Poly.const(0), n - 1)))
+        out.append((s, some(last), None))
+    return out
+
+
 def h_truncate(I, st, fr, e, c, a):
     place, cur = place_of(I, st, a[0])
     n = a[1].p
@@ -1000,7 +1016,13 @@ def h_unzip(I, st, fr, e, c, a):
     elem = seq_elem(I, st, seq, None)
     elem = deref(I, st, elem)
     if not isinstance(elem, VTup) or len(elem.items) != 2:
-        raise NotImplementedError("unzip over non-pairs")
+        # a list whose elements the analysis only summarised: two unknown lists of that length
+        outs_ = []
+        for i in (0, 1):
+            lf = leaf(("top-iter", ("unzip", i, seq.t)))
+            st.add_eq(t_len(lf) - t_len(seq.t))
+            outs_.append(VSeq(lf))
+        return [(st, VTup(outs_), None)]
     return [(st, VTup([VSeq(lift_map(I, st, seq.t, x)) for x in elem.items]), None)]
 
 
@@ -1229,6 +1251,7 @@ TABLE = {
     "std::iter::Iterator::max": h_iter_max,
     "std::slice::<impl [T]>::sort_by_key": h_sort_by_key,
     "std::vec::Vec::<T, A>::truncate": h_truncate,
+    "std::vec::Vec::<T, A>::pop": h_pop,
     "std::vec::Vec::<T, A>::drain": h_drain,
     "std::mem::take": h_take,
     "std::ops::Index::index": h_index,
